@@ -17,6 +17,10 @@ the C output is also compared with the extracted model on the permuted value.
  (vi)  canonical order against length fragmentation: SET OF lists at every 16K fragment
        boundary (16383 .. 81921 members) in ascending / descending / generated / rotated /
        shuffled memory orders (`lset` of moddrv_c06.inc; model tied on the sorted order)
+ (viii) time types: one instant (+ fraction) stored in every spelling X.680 46/47 allows (seconds / minutes omitted,
+       offsets, local time under three TZ, decimal comma, trailing zeros, second 60), stand-alone and inside SEQUENCE /
+       SET OF / SEQUENCE OF / CHOICE / EXPLICIT tag; oracle = X.690 11.7 / 11.8 computed in python from the instant
+       (lib/c06_time.py); GeneralizedTime_encode_der tied to the extracted Leaf/GTimeCanon.gt_canon.
  (vii) SET OF members with different leading tags and lengths (CHOICE over the four tag
        classes, ANY), DEFAULT components of extension additions in every explicit/absent
        combination (generated extensible SEQUENCEs)."""
@@ -27,6 +31,7 @@ from modgen import *
 from modbuild import *
 from modcorpus import run_mod
 from c06_util import *
+from c06_time import *
 import c02 as C02
 import prima_layer          # ENUMERATED / BIT STRING layer (lib/prima_layer.py, notes/design/PrimA.md)
 import zlib
@@ -830,6 +835,245 @@ def hand_layer(run, rng, tier, model):
     return builds
 
 
+# ---------------------------------------------------------------- (viii) time types in every spelling
+
+TIME_TZS = (0, 19800, -18000)
+
+
+def time_cases(rng, tier):
+    """[] of (type, value, tz): the representation dimension of GeneralizedTime / UTCTime"""
+    quick = tier == "quick"
+    cases = []
+    gpool, upool = [], []            # (t, frac, spellings)
+    for i, (t, frac) in enumerate(GT_DIRECTED):
+        sps = gt_spellings(t, frac, rng, full=(not quick or i < 5), tzs=TIME_TZS)
+        gpool.append((t, frac, sps))
+    for _ in range(30 if quick else 300):
+        t, frac = random_gt(rng)
+        gpool.append((t, frac, gt_spellings(t, frac, rng, full=False, tzs=TIME_TZS)))
+    for i, t in enumerate(UT_DIRECTED):
+        upool.append((t, "", ut_spellings(t, rng, full=(not quick or i < 4), tzs=TIME_TZS)))
+    for _ in range(12 if quick else 120):
+        t = random_ut(rng)
+        upool.append((t, "", ut_spellings(t, rng, full=False, tzs=TIME_TZS)))
+
+    def pick_tz(sp):
+        return sp["tz"] if sp["tz"] is not None else rng.choice(TIME_TZS)
+
+    # top level: every spelling (directed values), a sample of the others
+    for kind, tn, pool, ndir in (("gt", "G", gpool, len(GT_DIRECTED)), ("ut", "U", upool, len(UT_DIRECTED))):
+        for i, (t, frac, sps) in enumerate(pool):
+            chosen = sps
+            cap = (10**9 if i < 5 else 40) if i < ndir else 12
+            if quick and len(sps) > cap:
+                # the directed forms (one of each zone form x precision) first, random after
+                seen, first, rest = set(), [], []
+                for sp in sps:
+                    key = sp["form"]
+                    (first if key not in seen else rest).append(sp)
+                    seen.add(key)
+                rng.shuffle(first)
+                rng.shuffle(rest)
+                chosen = (first + rest)[:cap]
+            cases.append((tn, leaf(kind, t, frac, {"text": canon_gt(t, frac) if kind == "gt" else canon_ut(t), "form": "canonical", "tz": None}), rng.choice(TIME_TZS)))
+            for sp in chosen:
+                cases.append((tn, leaf(kind, t, frac, sp), pick_tz(sp)))
+
+    # the same inside SEQUENCE / SET OF / SEQUENCE OF / CHOICE / EXPLICIT tag
+    def draw(kind, tz, canonical=False):
+        t, frac, sps = rng.choice(gpool if kind == "gt" else upool)
+        if kind == "gt" and rng.chance(1, 4):
+            t, frac, sps = gpool[rng.below(3)]            # the values whose minutes / seconds can be omitted
+        ok = [sp for sp in sps if sp["tz"] in (None, tz)]
+        if canonical or not ok:
+            return leaf(kind, t, frac, {"text": canon_gt(t, frac) if kind == "gt" else canon_ut(t), "form": "canonical", "tz": None})
+        return leaf(kind, t, frac, rng.choice(ok))
+
+    def value(ty, tz, canonical=False):
+        k = ty[0]
+        if k in ("gt", "ut"):
+            return draw(k, tz, canonical)
+        if k == "seq":
+            return [value(mt, tz, canonical) for _n, mt in ty[1]]
+        if k in ("setof", "seqof"):
+            n = rng.choice([0, 1, 2, 2, 3, 3, 4, 6])
+            es = [value(ty[1], tz, canonical) for _ in range(n)]
+            if k == "setof" and n >= 2 and ty[1][0] in ("gt", "ut") and rng.chance(1, 2):
+                # the same instant twice in two spellings, and a neighbour whose verbatim text sorts the other way
+                a = es[0]
+                kind = ty[1][0]
+                sps = [sp for (t, f, sps_) in (gpool if kind == "gt" else upool) if (t, f) == (a["t"], a["frac"]) for sp in sps_ if sp["tz"] in (None, tz)]
+                if sps and not canonical:
+                    es[1] = leaf(kind, a["t"], a["frac"], rng.choice(sps))
+            rng.shuffle(es)
+            return es
+        if k == "choice":
+            i = rng.below(len(ty[1]))
+            return (i, value(ty[1][i][1], tz, canonical))
+        if k == "expl":
+            return value(ty[2], tz, canonical)
+
+    per = 50 if quick else 400
+    for tn in ("SG", "LG", "LU", "QG", "CG", "EG", "NS"):
+        for _ in range(per):
+            tz = rng.choice(TIME_TZS)
+            cases.append((tn, value(TYPES[tn], tz, canonical=rng.chance(1, 10)), tz))
+    return cases
+
+
+def time_layer(run, rng, tier, model):
+    m = hand_module("TTIME", TIME_MODULE, TIME_TYPES)
+    build_modules([m], tag="c06time", opts=("-fcompound-names",), moddrv_extra=INC)
+    if not m.get("exe"):
+        run.violation("build:module", {"what": "the time module is rejected or its code does not compile", "module": m["text"],
+                                       "asn1c_out": m.get("asn1c_out", "")[-1200:], "build_log": m.get("build_log", "")[-1200:]}, no_input=True)
+        return
+    cases = time_cases(rng, tier)
+    batches, metas = [], []
+    for tz in TIME_TZS:
+        lines, meta = ["settz " + tz_string(tz)], [None]
+        for tn, v, ctz in cases:
+            if ctz != tz:
+                continue
+            lines.append("canon %s ber %s" % (tn, enc_der(TYPES[tn], v, "input").hex()))
+            meta.append((tn, v, "ber"))
+            if tn in ("G", "U", "SG", "LG", "CG") and rng.chance(1, 4):
+                lines.append("canon %s xer %s" % (tn, enc_xer(TYPES[tn], v, "input", tn).hex()))
+                meta.append((tn, v, "xer"))
+        # compare_struct: two spellings of one value are equal, different values in the order of (instant, fraction)
+        for tn in ("G", "U"):
+            pool = [v for t_, v, ctz in cases if ctz == tz and t_ == tn]
+            byval = {}
+            for lf in pool:
+                byval.setdefault((lf["t"], lf["frac"]), []).append(lf)
+            pairs = []
+            for key in sorted(byval):
+                lfs = byval[key]
+                for _ in range(min(4 if tier == "quick" else 12, len(lfs) - 1)):
+                    pairs.append((rng.choice(lfs), rng.choice(lfs)))
+            for _ in range(60 if tier == "quick" else 600):
+                if pool:
+                    pairs.append((rng.choice(pool), rng.choice(pool)))
+            for a, b in pairs:
+                lines.append("cmp %s ber %s ber %s" % (tn, enc_der(TYPES[tn], a, "input").hex(), enc_der(TYPES[tn], b, "input").hex()))
+                meta.append(("cmp", tn, a, b))
+        batches.append(lines)
+        metas.append(meta)
+    outs = par_lines(m["exe"], batches, env=SAN_ENV)
+    mlines, mexp = [], []
+    nform = set()
+    for tz, lines, meta, (rc, out, err) in zip(TIME_TZS, batches, metas, outs):
+        if rc != 0 or len(out) != len(lines):
+            bad = lines[len(out)] if len(out) < len(lines) else None
+            run.violation("crash:C06-time", {"what": "moddrv died (rc=%s): sanitizer report, abort or signal" % rc, "module": m["text"], "command_line": bad,
+                                             "TZ": tz_string(tz), "stderr_tail": err[-2500:]})
+            out = out + ["CRASH"] * (len(lines) - len(out))
+        for l, me, o in zip(lines, meta, out):
+            if me is None:
+                continue
+            if me[0] == "cmp":
+                _c, tn, a, b = me
+                run.case("TZ=%s %s" % (tz_string(tz), l))
+                want = value_order(a, b)
+                run.count("time_compare_%s_%s" % (tn, "equal" if want == 0 else "order"))
+                if tn == "G" and a["t"] == b["t"] and not (unreadable(a) or unreadable(b)):
+                    # faithfulness: the fraction branch of GeneralizedTime_compare against the extracted frac_cmp_c
+                    mlines.append("gtfraccmp %d %d %d %d" % (c_fraction(a["text"]) + c_fraction(b["text"])))
+                    mexp.append(("cmp", o.strip(), l, tz))
+                if o.strip() == str(want):
+                    continue
+                if unreadable(a) or unreadable(b):
+                    # the reader answers the error value: the comparison falls back to "invalid sorts first" / the stored octets
+                    run.known_finding("C06-gt-fraction-of-hour-minute" if not (a["t"] == -1 or b["t"] == -1) else "C17-time-minus-one", "TZ=%s %s" % (tz_string(tz), l))
+                    continue
+                if tn == "G" and o.strip() == str(tree_compare(a, b)) and c_fraction(a["text"])[1] != c_fraction(b["text"])[1]:
+                    run.known_finding("C06-gt-compare-fraction-digits", "TZ=%s %s" % (tz_string(tz), l))
+                    continue
+                run.violation("oracle:compare(%s)" % ("equal" if want == 0 else "order"),
+                              {"module": m["text"], "type": tn, "TZ": tz_string(tz), "command_line": l, "c": o, "expected": str(want), "a": {k: a[k] for k in ("t", "frac", "text", "form")},
+                               "b": {k: b[k] for k in ("t", "frac", "text", "form")}, "expected_of_unchanged_tree": str(tree_compare(a, b)),
+                               "what": "compare_struct of two time values does not follow (instant, fraction): equal values in different spellings must compare equal, different values in their order"})
+                continue
+            tn, v, insyn = me
+            ls = leaves(TYPES[tn], v)
+            run.case("TZ=%s %s" % (tz_string(tz), l))
+            run.count("time_%s_%s" % (tn, insyn))
+            for lf in ls:
+                run.count("timeform_" + lf["kind"] + "_" + lf["form"].replace("/", "_"))
+                nform.add((lf["kind"], lf["form"]))
+            base = {"module": m["text"], "type": tn, "TZ": tz_string(tz), "command_line": l, "c": o, "replay_note": "send `settz %s` to moddrv before the command line" % tz_string(tz),
+                    "leaves": [{k: lf[k] for k in ("kind", "t", "frac", "text", "form", "canon")} for lf in ls]}
+            r = parse_canon(o)
+            if r is None:
+                if insyn == "xer":
+                    run.count("variant_not_decoded")
+                    continue
+                run.violation("oracle:decode", dict(base, what="a time value in a form of X.680 46/47 is not decoded from BER"), no_input=True)
+                continue
+            for s in SYNS:
+                run.count("cmp_" + s)
+                want = enc(s, tn, v, "oracle")
+                got = r[s]
+                if got == want:
+                    continue
+                tree = enc(s, tn, v, "tree")
+                if got.startswith("!") and s in ("der", "cxer") and any(lf["t"] == -1 for lf in ls):
+                    # asn_GT2time_frac / asn_UT2time answer the error value for t = -1 (also reached by UTCTime once C06-fix-7 is in)
+                    run.known_finding("C17-time-minus-one", "TZ=%s %s" % (tz_string(tz), l))
+                    continue
+                if (got.startswith("!") and tree.startswith("!")) or got == tree:
+                    ids = time_findings(tn, v, s)
+                    if ids:
+                        run.known_finding(ids[0], "TZ=%s %s" % (tz_string(tz), l))
+                        continue
+                run.violation("oracle:canonical(%s)" % s, dict(base, what="a time value stored in a non-canonical spelling is not encoded as X.690 11.7 / 11.8 prescribe for the instant "
+                                                                             "(python oracle), and the output is not what the recorded findings of the unchanged tree explain",
+                                                             syntax=s, expected=want, expected_of_unchanged_tree=tree, got=got))
+            # faithfulness: GeneralizedTime_encode_der against the extracted canonicaliser, leaf by leaf on the top-level type
+            if tn == "G" and insyn == "ber":
+                mlines.append("gtcanon %s %d" % (ls[0]["text"].encode().hex(), tz))
+                mexp.append((r["der"], base, ls[0]))
+            if tn == "U" and insyn == "ber":
+                mlines.append("utcanon %s %d" % (ls[0]["text"].encode().hex(), tz))
+                mexp.append((None, base, ls[0]))
+    rcm, mo, me_ = run_lines(model, mlines, timeout=600)
+    if rcm != 0 or len(mo) != len(mlines):
+        run.violation("model:driver", {"what": "model driver failed (time layer)", "rc": rcm, "stderr": me_[-1500:]}, no_input=True)
+        mo = []
+    for ml, o, ex in zip(mlines, mo, mexp):
+        run.case(ml)
+        o = o.strip()
+        if ex[0] == "cmp":
+            run.count("model_gtfraccmp")
+            if o != ex[1]:
+                run.violation("correspondence:CanonicalTime.frac_cmp_c", {"what": "GeneralizedTime_compare on two values of one instant differs from the extracted model of its fraction branch",
+                                                                          "model": o, "c": ex[1], "model_command": ml, "command_line": ex[2], "TZ": tz_string(ex[3])}, no_input=True)
+            continue
+        cder, base, lf = ex
+        if cder is not None:
+            run.count("model_gtcanon")
+            want = "!" if o == "FAIL" else _tl_hex(0x18, o)
+            if (cder.startswith("!") and want == "!") or cder == want:
+                continue
+            exp = enc("der", "G", lf, "oracle")
+            run.violation("correspondence:CanonicalTime.gt_canon", dict(base, what="GeneralizedTime_encode_der differs from the extracted model of the canonicaliser (asn_GT2time_frac, then asn_time2GT_frac with force_gmt)",
+                                                                         model=o, model_command=ml), no_input=(cder == exp))
+        else:
+            # spec side: the canonicaliser the UTCTime patch proposes (asn_UT2time + asn_time2UT) against the python oracle
+            run.count("spec_utcanon")
+            want = "FAIL" if lf["t"] == -1 else lf["canon"].encode().hex()
+            if o != want:
+                run.violation("model:ut_canon", dict(base, what="extracted ut_canon differs from X.690 11.8 (python)", model=o, expected=want, model_command=ml), no_input=True)
+    if len(nform) < 40:
+        run.violation("harness:time-forms", {"what": "the spelling generator produced only %d distinct (kind, form) classes" % len(nform)}, no_input=True)
+
+
+def _tl_hex(tag, content_hex):
+    n = len(content_hex) // 2
+    assert n < 128
+    return "%02x%02x%s" % (tag, n, content_hex)
+
+
 def main(tier):
     run = Run("C06", tier)
     rng = Rng(run.seed)
@@ -841,10 +1085,15 @@ def main(tier):
                                                "log_tail": (out if not ok else plog)[-2000:], "grep_gate": gate}, no_input=True)
     try:
         model = model_build()
-        mods = model_layer(run, rng, tier, model)
-        long_layer(run, rng, tier, model)
-        frag_spec_layer(run, rng, tier, model)
-        hand_layer(run, rng, tier, model)
+        only = os.environ.get("C06_ONLY", "").split(",") if os.environ.get("C06_ONLY") else None      # development aid: run some layers only
+        mods = model_layer(run, rng, tier, model) if not only or "model" in only else []
+        if not only or "long" in only:
+            long_layer(run, rng, tier, model)
+            frag_spec_layer(run, rng, tier, model)
+        if not only or "hand" in only:
+            hand_layer(run, rng, tier, model)
+        if not only or "time" in only:
+            time_layer(run, rng, tier, model)
     except BuildError as e:
         run.violation("build", {"what": str(e)[-2500:]}, no_input=True)
         return run.finish("proof", (nthm, ndis))
